@@ -156,9 +156,18 @@ class Simulator:
             except Exception as e:  # noqa: BLE001
                 _LOGGER.warning(str(e), stacklevel=2)
 
+        rhs = self.model
+        if (shift := self._time_shift) is not None:
+            # After a variable update the integrator runs in time relative to that
+            # update; the model has to see absolute time
+            model = self.model
+            rhs = lambda t, y: model(t + shift, y)  # noqa: E731
+            if (rel_jac := jac_fn) is not None:
+                jac_fn = lambda t, y: rel_jac(t + shift, y)  # noqa: E731
+
         y0 = self.y0
         self.integrator = self._integrator_type(
-            self.model,
+            rhs,
             tuple(y0[k] for k in self.model.get_variable_names()),
             jac_fn,
         )
